@@ -436,7 +436,7 @@ fn gen_corr(rng: &mut Rng) -> Corr {
         0..=2 => Corr { kind: "bitflip_tag".into(), frame, field: rng.below(4) as usize, bit: rng.below(8) as u8, ..Default::default() },
         3..=6 => Corr { kind: "len".into(), frame, field: rng.below(4) as usize, value: rng.pick(LEN_VALUES).to_string(), ..Default::default() },
         7 | 8 => Corr { kind: "truncate".into(), at: rng.below(4096) as usize, ..Default::default() },
-        _ => Corr { kind: "garbage".into(), frame, field: rng.below(2) as usize, at: rng.below(64) as usize, bit: rng.below(8) as u8, ..Default::default() },
+        _ => Corr { kind: "garbage".into(), frame, field: rng.below(2) as usize, at: rng.below(64) as usize, bit: rng.below(12) as u8, ..Default::default() },
     }
 }
 
